@@ -529,9 +529,32 @@ def loop_template(ctx, info, node, ec):
             if hs and any(isinstance(x, ast.Break) for x in hs[0].body):
                 # the next() is unconditional at loop top level
                 return "T-next"
-    # T-consume: test is a container name; an unconditional top-level removal from it; no insertion in the body
-    if isinstance(test, ast.Name):
-        c = test.id
+    # T-next, sentinel spelling:  x = next(it, END) / if x is END: break   at the top of the body, or a conjunct
+    # `next(it, END) is not END` of the loop test -- END a private sentinel object (sa.db.is_private_sentinel)
+    from sa.db import is_private_sentinel
+
+    def sentinel_next(call):
+        return isinstance(call, ast.Call) and unparse(call.func) == "next" and len(call.args) == 2 and isinstance(call.args[1], ast.Name) \
+            and call.args[1].id not in f.locals and is_private_sentinel(ctx.db, f.module.name, call.args[1].id)
+    for k_, st in enumerate(body[:2]):
+        if isinstance(st, ast.Assign) and len(st.targets) == 1 and isinstance(st.targets[0], ast.Name) and sentinel_next(st.value) \
+                and k_ + 1 < len(body) and isinstance(body[k_ + 1], ast.If):
+            nx = body[k_ + 1]
+            t_ = nx.test
+            if isinstance(t_, ast.Compare) and len(t_.ops) == 1 and isinstance(t_.ops[0], ast.Is) and isinstance(t_.left, ast.Name) \
+                    and t_.left.id == st.targets[0].id and unparse(t_.comparators[0]) == st.value.args[1].id \
+                    and nx.body and isinstance(nx.body[-1], ast.Break):
+                return "T-next"
+    conj = test.values if isinstance(test, ast.BoolOp) and isinstance(test.op, ast.And) else [test]
+    for c_ in conj:
+        if isinstance(c_, ast.Compare) and len(c_.ops) == 1 and isinstance(c_.ops[0], ast.IsNot) and sentinel_next(c_.left) \
+                and unparse(c_.comparators[0]) == c_.left.args[1].id:
+            return "T-next"
+    # T-consume: test is a container name (or a conjunction with one); an unconditional top-level removal from it; no
+    # insertion in the body
+    names = [c_ for c_ in conj if isinstance(c_, ast.Name)]
+    if len(names) == 1:
+        c = names[0].id
         removes = False
         for st in body:
             for n in ast.walk(st) if isinstance(st, (ast.Assign, ast.Expr)) else []:
@@ -702,6 +725,13 @@ def check_termination(ctx, rep, E, ec):
                     how = "variant template T-inc: %s strictly increases on every back edge (entailed) and is bounded by the loop test" % nm
                 else:
                     entry = HAND_LOOPS.get((f.name, tt))
+                    if entry is None and isinstance(node.test, ast.BoolOp) and isinstance(node.test.op, ast.And):
+                        # a conjunction that contains the hand-confirmed test: further (side-effect free) conjuncts only make
+                        # the loop stop earlier
+                        pure = all(not any(isinstance(x, (ast.Call, ast.NamedExpr, ast.Await, ast.Yield)) for x in ast.walk(v)) for v in node.test.values)
+                        if pure:
+                            for v in node.test.values:
+                                entry = entry or HAND_LOOPS.get((f.name, " ".join(unparse(v).split())))
                     if entry is None:
                         # renamed variables / loop moved into an extracted helper of the same module: match the test's shape
                         mine = alpha(tt, f)
@@ -867,6 +897,19 @@ def check_establishing(ctx, rep, E):
                    how="dominated by a test that the node's free-degree counter is non-zero (establishes FREE_DEGREE at its use)",
                    witness=None if ok else "the first-unmatched-neighbour search is reached for a node whose free-degree counter may be 0 "
                    "(all neighbours matched): StopIteration escapes instead of EncoderError", nontrivial=True, key="FREE_DEGREE/" + f.name)
+    # EST-INDEX_NONNEG: the index encoder's explicit raise is reached for negative indices only (ring distances and branch
+    # lengths are >= 0 by RINGBOND_DISTINCT / non-empty branches): abstract run with a symbolic index (shared with C16/I5)
+    gsi = ctx.db.funcs.get("selfies.grammar_rules.get_selfies_from_index")
+    if gsi is not None and gsi.qual in E.quals and any(v == "INDEX_NONNEG" for v in TRIAGE.values()):
+        from sa.sym import Engine, Hooks, Num as _Num
+        from sa.lin import Lin as _Lin, le as _le
+        nvar = _Lin.var("n")
+        frx = Engine(ctx, Hooks()).run_function(gsi, {gsi.posparams[0]: _Num(nvar)})
+        other = [(st_, nd, exc) for st_, nd, exc in frx.raises if not st_.entails(_le(nvar, -1))]
+        rep.ob("EST", not other, other[0][1] if other else gsi.node, gsi, construct="raise sites of the index encoder",
+               how="reached only when index <= -1 is entailed (establishes INDEX_NONNEG at its use)",
+               witness=None if not other else "get_selfies_from_index can raise %s for a non-negative index (e.g. a long branch or a wide ring): "
+               "it escapes encoder() instead of EncoderError" % other[0][2], nontrivial=True, key="INDEX_NONNEG/guard")
     # EST-AROMATIC_TABLES: the two element tables have one key set and kekulize() rejects other elements before pruning
     try:
         av = ctx.fold.global_value("selfies.constants", "AROMATIC_VALENCES")
@@ -883,8 +926,21 @@ def check_establishing(ctx, rep, E):
     if kek is not None and prune is not None and kek.qual in E.quals:
         # a membership guard on the aromatic table with `return False` precedes the first use of the pruning function
         src = unparse(kek.node)
-        guards = [nd for nd in own_nodes(kek.node) if isinstance(nd, ast.If) and "AROMATIC_VALENCES" in unparse(nd.test)
-                  and "not in" in unparse(nd.test) and any(isinstance(x, ast.Return) for x in nd.body)]
+        def table_cmp(c, want_in):
+            return isinstance(c, ast.Compare) and len(c.ops) == 1 and isinstance(c.ops[0], ast.In if want_in else ast.NotIn) \
+                and "AROMATIC_VALENCES" in unparse(c.comparators[0])
+
+        def rejects_non_members(t):
+            """the test is true exactly when some element is not in the valence table"""
+            if isinstance(t, ast.UnaryOp) and isinstance(t.op, ast.Not):
+                o = t.operand
+                return isinstance(o, ast.Call) and unparse(o.func) == "all" and len(o.args) == 1 \
+                    and isinstance(o.args[0], (ast.GeneratorExp, ast.ListComp)) and table_cmp(o.args[0].elt, True)
+            if isinstance(t, ast.Call) and unparse(t.func) == "any" and len(t.args) == 1 and isinstance(t.args[0], (ast.GeneratorExp, ast.ListComp)):
+                return table_cmp(t.args[0].elt, False)
+            return table_cmp(t, False)          # inside a loop over the nodes: `if element not in TABLE: return False`
+        guards = [nd for nd in own_nodes(kek.node) if isinstance(nd, ast.If) and rejects_non_members(nd.test)
+                  and any(isinstance(x, ast.Return) for x in nd.body)]
         first_use = [nd for nd in own_nodes(kek.node) if isinstance(nd, ast.Attribute) and nd.attr == prune.name]
         # ... or the first call of a helper that (transitively) prunes
         for s_ in ctx.cg.sites(kek):
@@ -940,6 +996,61 @@ def check_cache_shape(ctx, rep, E):
                    "and raises TypeError/ValueError instead of the documented error", nontrivial=True,
                    key="CACHE_SHAPE/%s/%s" % (f.name, "ok" if ok else "may-be-none"))
     return n
+
+
+def check_definite_assignment(ctx, rep, E):
+    """X-unbound: every read of a local in the region is preceded by a binding on all paths (UnboundLocalError is a
+    NameError, never the documented error class).  Syntax-directed definite-assignment dataflow (sa/defassign.py); a report is
+    dropped only when the path-sensitive engine reaches the read on no path with the name unbound."""
+    from sa.defassign import maybe_unbound
+    n_f = n_bad = 0
+    for key in E.order:
+        f = E.infos[key].f
+        n_f += 1
+        try:
+            sites = maybe_unbound(f)
+        except RuntimeError as e:
+            raise AnalysisError("definite-assignment dataflow: %s" % e)
+        if not sites:
+            continue
+        confirmed = _unbound_confirmed(ctx, f, sites)
+        for nd in sites:
+            if id(nd) not in confirmed:
+                continue
+            n_bad += 1
+            rep.ob("X-unbound", False, nd, f, construct="read of local %s" % nd.id,
+                   witness="the local %r can be read on a path that never bound it: UnboundLocalError escapes instead of the documented error" % nd.id,
+                   nontrivial=True, key="unbound/%s/%s" % (f.name, nd.id))
+    rep.ob("X-unbound", True, None, None, loc="selfies/", construct="definite assignment in %d functions of the region" % n_f,
+           how="every read of a local is dominated by a binding on all paths", key="unbound/summary")
+    return n_f
+
+
+def _unbound_confirmed(ctx, f, sites):
+    """ids of the reported reads that the path-sensitive engine also reaches with the name unbound (correlated tests such as
+    `if a: x = 1` ... `if a: use(x)` are ruled out there); when the engine cannot analyse f, every report stands"""
+    from sa.sym import Engine, Hooks, Unk
+    want = {id(n): n for n in sites}
+    hit = set()
+
+    class H(Hooks):
+        pass
+    eng = Engine(ctx, H())
+    orig = eng.e_Name
+
+    def e_name(fr, e, s):
+        out = orig(fr, e, s)
+        if id(e) in want and fr.func is f:
+            for _s, v in out:
+                if isinstance(v, Unk) and isinstance(v.term, tuple) and v.term[:1] == ("unbound",):
+                    hit.add(id(e))
+        return out
+    eng.e_Name = e_name
+    try:
+        eng.run_function(f, {})
+    except AnalysisError:
+        return set(want)
+    return hit
 
 
 def check_recursion(ctx, rep, E):
